@@ -40,13 +40,20 @@ func (t *TaskExecutor[T]) ExecuteAt(identifier T, callback func(), executionTime
 		queuedElement.Cancel()
 	}
 
-	scheduledTask := t.Executor.ExecuteAt(func() {
-		callback()
-
+	var scheduledTask *ScheduledTask
+	scheduledTask = t.Executor.ExecuteAt(func() {
+		// the task stops being pending when it starts: abort if it was canceled or replaced after a worker had already
+		// picked it up, and only remove the identifier if it still belongs to this task (it may have been re-scheduled)
 		t.queuedElementsMutex.Lock()
-		defer t.queuedElementsMutex.Unlock()
+		if queuedElement, queuedElementExists := t.queuedElements.Get(identifier); !queuedElementExists || queuedElement != scheduledTask {
+			t.queuedElementsMutex.Unlock()
 
+			return
+		}
 		t.queuedElements.Delete(identifier)
+		t.queuedElementsMutex.Unlock()
+
+		callback()
 	}, executionTime)
 
 	if scheduledTask != nil {
